@@ -164,3 +164,114 @@ func Mixed(data []byte, k int) (int, []byte) {
 	}
 	return n + len(acc), acc
 }
+
+// maps that are only read: present, absent and literal keys, two value types
+func Lookup(k string, m map[string]bool, n map[string]int) int {
+	r := 0
+	if m[k] {
+		r += 1
+	}
+	if m["x"] && !m[k+"x"] {
+		r += 2
+	}
+	if n[k] > 1 {
+		r += n[k]
+	}
+	return r
+}
+
+// a function that calls itself twice on shorter strings; || and && whose operands can panic
+func Balanced(s string, m map[string]bool) bool {
+	if s == "" {
+		return false
+	}
+	if i := bytes.IndexByte([]byte(s), ','); i >= 0 {
+		a := Balanced(s[:i], m)
+		b := Balanced(s[i+1:], m)
+		return a && b
+	}
+	return len(s) > 1 && m[s[1:]] || m[s]
+}
+
+// recursion on an int: the depth is the argument
+func Tri(n int) int {
+	if n <= 0 {
+		return 0
+	}
+	return n + Tri(n-1)
+}
+
+// a loop that calls a recursive function
+func SumTri(n int) int {
+	s := 0
+	for i := 0; i < n; i++ {
+		s += Tri(i)
+	}
+	return s
+}
+
+// range over a string: byte offsets and runes, invalid UTF-8, continue and break
+func Runes(s string) (int, int, int) {
+	n, pos, bad := 0, 0, 0
+	for i, c := range s {
+		if c == 0xFFFD {
+			bad++
+			continue
+		}
+		if c == '!' {
+			break
+		}
+		if c >= 0x80 && c != 'é' {
+			pos += i
+		}
+		n++
+	}
+	return n, pos, bad
+}
+
+// range over a string with the rune only, early return
+func Plain(s string) bool {
+	for _, c := range s {
+		if c != '_' && (c < 'a' || c > 'z') {
+			return false
+		}
+	}
+	return true
+}
+
+// slices of strings: len, index, slice, range with index, comparison of elements
+func Words(l []string, i int) (string, int) {
+	if n := len(l); n > 0 && l[n-1] == "test" {
+		l = l[:n-1]
+	}
+	k := 0
+	for j, w := range l[1:] {
+		if w == l[0] {
+			k += j + 1
+		}
+	}
+	return l[i], k
+}
+
+// range over an int, with and without the variable
+func AllHex(s string) bool {
+	for i := range len(s) {
+		c := s[i]
+		if '0' <= c && c <= '9' || 'a' <= c && c <= 'f' {
+			continue
+		}
+		return false
+	}
+	return true
+}
+
+func CountDown(n int) int {
+	t := 0
+	for i := range n {
+		t += i
+	}
+	for range 3 {
+		t++
+	}
+	return t
+}
